@@ -1,7 +1,11 @@
 //! Domain `annot` (C06): sheet list and annotations across save + reload.
 //!
-//! case = {"case": id, "steps": [ {"a":"Init","sheets":["S1","T2"]}, {"a":"AddLink","s":1,"cell":"B2","url":"..","loc":false}, ..,
-//!                                {"a":"SaveLoad","light":false} ]}
+//! case = {"case": id, "steps": [ {"a":"Init","sheets":["S1","T2"]}, {"a":"AddLink","s":1,"cell":"B2","url":"..","loc":false},
+//!                                {"a":"AddComment","s":1,"r":2,"c":3,"author":"..","text":".."},
+//!                                {"a":"AddName","home":0|sheet,"name":"..","addr":"'S1'!$A$1","ref":"S1","local":-1|k,"hidden":false},
+//!                                .. (AddSheet Rename RemoveSheet SetState SetActive AddMerge AddDv AddCf SetAf SetTab SetView
+//!                                    SetPageSetup SetHf SetProt SetWbProt: see `apply`) .., {"a":"SaveLoad","light":false} ]}
+//! An AddName event also carries "canon": the address text as the library renders it (the model's token for it).
 //! Sheet indices are 1-based (TLA+ sequences).  Building steps yield one small event each (the step's
 //! fields + "outcome": "ok" | "err" | "panic"); they are applied through the public API only.
 //! A SaveLoad step yields one event carrying
